@@ -234,6 +234,57 @@ m("C05", "wrong-remote-peer", "network/libp2p_impl.go",
   "					dtnet.receiver.ReceiveRequest(ctx, s.Conn().LocalPeer(), receivedRequest)",
   "C05.1", "request attributed to the wrong peer")
 
+# ---------------- C07
+CA = "channels/caches.go"
+m("C07", "index-moves-backwards", FSM,
+  "			if rcvdBlocksTotal > chst.ReceivedBlocksTotal {\n				chst.ReceivedBlocksTotal = rcvdBlocksTotal\n			}",
+  "			chst.ReceivedBlocksTotal = rcvdBlocksTotal",
+  "C07.1", "block indexes move backwards", "calibration")
+m("C07", "count-blocks-not-on-wire", GS,
+  "	if block.BlockSizeOnWire() == 0 {\n		return\n	}\n\n	chid, ok := t.requestIDToChannelID.load(request.ID())\n	if !ok {\n		return\n	}\n\n	// OnDataQueued",
+  "	chid, ok := t.requestIDToChannelID.load(request.ID())\n	if !ok {\n		return\n	}\n\n	// OnDataQueued",
+  "C07.5", "blocks that never went on the wire are counted as queued", "calibration")
+m("C07", "every-block-unique", GS,
+  "	err := t.events.OnDataReceived(chid, block.Link(), block.BlockSize(), block.Index(), block.BlockSizeOnWire() != 0)",
+  "	err := t.events.OnDataReceived(chid, block.Link(), block.BlockSize(), block.Index(), true)",
+  "C07.6", "every received block flagged unique", "calibration")
+m("C07", "seed-outside-lock", CA,
+  "	bic.lk.Lock()\n	defer bic.lk.Unlock()\n	value = bic.values[idxKey]\n	if value != nil {\n		return value, nil\n	}\n	newValue, err := readFromOriginal(chid)\n	if err != nil {\n		return nil, err\n	}\n	bic.values[idxKey] = &newValue",
+  "	newValue, err := readFromOriginal(chid)\n	if err != nil {\n		return nil, err\n	}\n	bic.lk.Lock()\n	defer bic.lk.Unlock()\n	bic.values[idxKey] = &newValue",
+  "C07.2", "two concurrent first reporters each install their own high-water mark", "seeded/C07a")
+m("C07", "received-seeded-from-sent", CH,
+  "	return chst.ReceivedCidsTotal(), nil\n}\n\nfunc (c *Channels) getSentIndex",
+  "	return chst.SentCidsTotal(), nil\n}\n\nfunc (c *Channels) getSentIndex",
+  "C07.4", "received high-water mark seeded from the sent index after reopen", "seeded/C07b")
+m("C07", "cas-result-ignored", CA,
+  "		if atomic.CompareAndSwapInt64(value, currentIndex, newIndex) {\n			return true, nil\n		}",
+  "		atomic.CompareAndSwapInt64(value, currentIndex, newIndex)\n		return true, nil",
+  "C07.2", "concurrent reporters of one position both counted")
+m("C07", "leq-instead-of-lt", CA,
+  "		if newIndex <= currentIndex {\n			return false, nil\n		}",
+  "		if newIndex < currentIndex {\n			return false, nil\n		}",
+  "C07.2", "a replayed position is counted again")
+m("C07", "progress-without-unique", CH,
+  "	if !unique {\n		return\n	}\n",
+  "",
+  "C07.3", "non-unique blocks add to the byte totals")
+m("C07", "progress-event-always", CH,
+  "	if progress {\n		if err := c.stateMachines.Send(chid, progressEvt, delta); err != nil {\n			return err\n		}\n	}",
+  "	if progress || unique {\n		if err := c.stateMachines.Send(chid, progressEvt, delta); err != nil {\n			return err\n		}\n	}",
+  "C07.3", "replayed unique blocks add to the byte totals")
+m("C07", "progress-sets-instead-of-adds", FSM,
+  "			chst.Sent += delta\n",
+  "			chst.Sent = delta\n",
+  "C07.1", "sent total overwritten instead of accumulated")
+m("C07", "size-on-wire-reported", GS,
+  "	if err := t.events.OnDataSent(chid, block.Link(), block.BlockSize(), block.Index(), block.BlockSizeOnWire() != 0); err != nil {",
+  "	if err := t.events.OnDataSent(chid, block.Link(), block.BlockSizeOnWire(), block.Index(), block.BlockSizeOnWire() != 0); err != nil {",
+  "C07.6", "sent total counts wire size instead of block size")
+m("C07", "queued-progress-from-sent", CH,
+  "	return dataLimit, chst.Queued(), nil",
+  "	return dataLimit, chst.Sent(), nil",
+  "C07.4", "queued progress seeded from the sent counter after restart")
+
 by = collections.defaultdict(list)
 for x in M:
     p = x.pop("prop")
